@@ -166,14 +166,28 @@ _PERF_CTX_FAULT = {
     "params": {"kinds": {}},
     "variants": [{"options": {"COLLECT_PERF_STATS": True}, "clock": [1]}, {"options": {"KEEP_DEPENDENCIES": True}}],
 }
+# a synchronous wait, made inside a task, for a sibling that is pending on the scheduler's stack (yielded next to the task
+# that waits for it) - legal with every option setting
+_SYNC_ON_PENDING_SIBLING = {
+    "roots": [[
+        {"op": "let", "h": "h1", "f": {"task": [{"op": "yield", "x": "p1", "s": {"new": {"item": [0, 1, {"set": 1}]}}}, {"op": "return", "e": {"var": "p1"}}]}},
+        {"op": "yield", "x": "x1", "s": {"tuple": [
+            {"new": {"task": [{"op": "sync", "x": "c1", "h": "h1"}, {"op": "return", "e": {"var": "c1"}}]}},
+            {"old": "h1"},
+            {"new": {"task": [{"op": "yield", "x": "d1", "s": {"new": {"item": [0, 2, {"set": 2}]}}}, {"op": "return", "e": {"var": "d1"}}]}}]}},
+        {"op": "return", "e": {"var": "x1"}}]],
+    "params": {"kinds": {}},
+    "variants": [{"options": {"ENABLE_COMPLEX_ASSERTIONS": False}}, {"options": {"ENABLE_COMPLEX_ASSERTIONS": False, "KEEP_DEPENDENCIES": True}}],
+}
 _EXTRA = [
+    (1, dict(_base, name="sync-shared", p_sync=0.3, p_old=0.5, p_let=0.3, p_item=0.5)),
     (1, dict(_base, name="skip-noassert", p_item_skip=0.45, p_item=0.6)),
     (1, dict(_base, name="ctx-faults", p_ctx_fault=0.7, p_with=0.45, p_item=0.55, p_nonasync=0.1)),
 ]
-_CORPUS_SRC = [_SIBLING_FLUSH] + _KEEP_GUARD + [_NOASSERT_SKIP, _PERF_CTX_FAULT]
+_CORPUS_SRC = [_SIBLING_FLUSH] + _KEEP_GUARD + [_NOASSERT_SKIP, _PERF_CTX_FAULT, _SYNC_ON_PENDING_SIBLING]
 
 mach.install(globals(), "C20", NAMES, ("C20:",), PROFILES, n_quick=200, n_thorough=2500, nontrivial=_nontrivial,
-             extra_monitors=_extra, hang_monitor=_hang, corpus=_CORPUS_SRC, level="proof", extra_gen=mach.extra_profiles(_EXTRA, 40, 600))
+             extra_monitors=_extra, hang_monitor=_hang, corpus=_CORPUS_SRC, level="proof", extra_gen=mach.extra_profiles(_EXTRA, 60, 900))
 for _c, _src in zip(CORPUS, _CORPUS_SRC):
     _c["variants"] = _src["variants"]
     _c["tree"]["variants"] = _c["variants"]
@@ -188,7 +202,7 @@ def gen_cases(rng, tier):
         _distinct_prios(c, rng)
         c["variants"] = _variants(rng, 3 if tier == "quick" else 6)
         prof = (c.get("meta") or {}).get("profile")
-        if prof == "skip-noassert":
+        if prof in ("skip-noassert", "sync-shared"):
             c["variants"][0] = {"options": {"ENABLE_COMPLEX_ASSERTIONS": False}}
         elif prof == "ctx-faults":
             c["variants"][0] = {"options": {"COLLECT_PERF_STATS": True}, "clock": [1]}
